@@ -50,11 +50,32 @@ def standin(tier, seed):
         "GrandCanonical": lambda: (lambda a: (GrandCanonical(a, Atoms("Cu"), temperature=2500.0, chemical_potential=-0.3, number_of_exchange_particles=4, seed=seed, max_cycles=2),
                                               [("d", DisplacementMove(np.arange(4), Ball(0.2))), ("x", ExchangeMove(np.arange(4)))]))(base(magmoms=True)),
     }
+    class Never:                        # judges (one energy evaluation) and rejects
+        def evaluate(self, ctx):
+            ctx.atoms.get_potential_energy(); return False
+        def to_dict(self): return {"name": "Never"}
+        @classmethod
+        def from_dict(cls, d): return cls()
+
+    def binary():
+        a = base()
+        a.numbers[:] = [29, 79, 29, 79]
+        a.calc = pair_calculator()
+        return a
+
+    def deleting(composite):
+        composite.bias_towards_insert = 0.0
+        return composite
+    # a rejected deletion of TWO particles of different species (in whatever order the move picked them) must put every atom back
+    # in its place: the energy handed back to the calculator is that of the old configuration
+    configs["GrandCanonical(binary alloy, rejected double deletions)"] = lambda: (lambda a: (
+        GrandCanonical(a, Atoms("Cu"), temperature=2500.0, chemical_potential=-0.3, number_of_exchange_particles=4, seed=seed, max_cycles=1),
+        [("xx", deleting(ExchangeMove(np.arange(4)) * 2), Never())]))(binary())
     for name, mk in configs.items():
         sim, moves = mk()
         a = sim.atoms
-        for nm, mv in moves:
-            sim.add_move(mv, name=nm)
+        for nm, mv, *crit in moves:
+            sim.add_move(mv, *crit, name=nm)
         sim.run(0)                      # the initial reference evaluation belongs to set-up, not to a trial
         for st in range(steps):
             e0 = a.calc.evals if hasattr(a.calc, "evals") else 0
